@@ -15,7 +15,7 @@ def sort_by(f): _sort_by_impl(map([f]));
 def group_by(f): _group_by_impl(map([f]));
 def unique_by(f): [group_by(f)[] | .[0]];
 def unique: group_by(.) | map(.[0]);
-def reverse: [.[length - 1 - range(0;length)]];
+def reverse: if type == \"string\" then _unmodelled else [.[length - 1 - range(0;length)]] end;
 def ascii_downcase: explode | map( if 65 <= . and . <= 90 then . + 32  else . end) | implode;
 def ascii_upcase: explode | map( if 97 <= . and . <= 122 then . - 32  else . end) | implode;
 def max_by(f): _max_by_impl(map([f]));
